@@ -23,6 +23,12 @@ Theorem C13_replay_eq : forall n steps s p,
 Proof. exact replay_eq. Qed.
 Print Assumptions C13_replay_eq.
 
+(* ... and the stream is exact, not merely replay-equal under a forgiving client: replayed from nothing, every
+   insert position lies within the replica and every remove position holds the key the op names. *)
+Theorem C13_log_fits : forall n steps s p, ops_fit (st_hist (run cfg_fixed n steps) s p) [] = true.
+Proof. exact log_fits. Qed.
+Print Assumptions C13_log_fits.
+
 Theorem C13_quiescent_clean : forall n steps,
   let st := run cfg_fixed n steps in
   st_pend st = [] /\ forall s p, subscribed st s p = false -> st_mirror st s p = [].
@@ -41,6 +47,13 @@ Theorem C13_remove_drops_entry : forall st v, Mid st -> has_node (st_tree st) v 
   has_node (st_tree st') v = false /\ ~ In (last_name v) (index_at (st_tree st') (parent_of v)) /\ Mid st'.
 Proof. exact remove_drops_entry. Qed.
 Print Assumptions C13_remove_drops_entry.
+
+(* a session that leaves (at any point) takes its nodes, their indices and its subscriptions with it *)
+Theorem C13_detach_clean : forall cfg st s, cfg_ok cfg -> Inv st -> s < st_n st -> has_node (st_tree st) [NS s] = true ->
+  let st' := exec cfg s st CDetach in
+  Inv st' /\ st_subs st' s = [] /\ forall p, own s p = true -> has_node (st_tree st') p = false /\ index_at (st_tree st') p = [].
+Proof. exact detach_clean. Qed.
+Print Assumptions C13_detach_clean.
 
 (* the full invariant, for every configuration that has both repairs *)
 Theorem C13_run_Inv : forall cfg n steps, cfg_ok cfg -> Inv (run cfg n steps).
